@@ -649,7 +649,7 @@ Section SA.
   Qed.
 
   Lemma sa_mon_step s a cq : sa_rel s a ->
-    exists a', sa_mon c a (model_ev (sa_step c) sa_answer s cq) = Some a'
+    exists a', mon_of (sa_spec c) sa_chk (fun _ _ => true) a (model_ev (sa_step c) sa_answer s cq) = Some a'
                /\ sa_rel (step_state (sa_step c) s (fst cq)) a'.
   Proof.
     apply (@val_mon_step _ _ _ _ _ _ (sa_step c) sa_answer (sa_spec c) sa_chk (fun _ _ => true) sa_rel).
